@@ -12,14 +12,22 @@
      eval_expr BooleanOp (`value_lowering`: bool_expr_branch e (set 1) (set 0))
 
    F_model: boolean expression trees over
-     - comparisons  a OP b,  OP in < > <= >= == !=,  a, b "safe" int operands: integer literals
-       or int locals/parameters of the enclosing function (`Indirect(STATE, [fp], -offset)`, read
-       by `lwso`);  `is_safe(right)` holds for every such operand, so `keep` is False and the left
-       operand is never pushed;
+     - comparisons  a OP b,  OP in < > <= >= == !=,  a, b int operands:
+         "safe" operands: integer literals or int locals/parameters of the enclosing function
+         (`Indirect(STATE, [fp], -offset)`, read by `lwso`);
+         arithmetic operands x + y, x - y, x * y (nested), lowered as eval_expr's
+         BinaryArithmeticOp case does, including the keep / push_value / pop_value discipline
+         (`keep = not is_safe(right)`: a computed left operand is pushed on the frame while an
+         unsafe right operand is evaluated).  `/` and `%` are outside F_model (the checked
+         build's division guard is not modelled);
      - boolean literals;  bool locals (`IndirectByte`, read by `lbso`);
      - not e, e1 and e2, e1 or e2
    in branch position with ARBITRARY if_true / if_false instruction sequences (the model takes
    them as lists of abstract lines, exactly like the Python function takes iterables).
+
+   F_proved (LowerBoolProofs.v, predicate `vars_ok`): F_model with SAFE comparison operands
+   (literals, locals).  Arithmetic operands are modelled and corresponded textually only; they
+   belong to `arith_lowering_correct` (DESIGN C01 item 3), the next piece of `Lower`.
 
    Everything here is executable and extracted (Extract/ExtractLowerBool.v); the semantic theorems
    are in LowerBoolProofs.v.  The tables compare_map and halt_inversion come from the REGENERATED
@@ -57,13 +65,15 @@ Inductive ains :=
 | AHc (c : cond) (a b : sym)         (* h<cc> a, b *)
 | ALwso (d : reg) (b o : sym)        (* lwso [d], b, o *)
 | ALbso (d : reg) (b o : sym)        (* lbso [d], b, o *)
+| AArith (op : aop) (d : reg) (a b : sym)   (* add/sub/mul/.. [d], a, b *)
 | AMov (d : reg) (v : sym)           (* mov [d], v *)
 | ASwso (b o v : sym)                (* swso b, o, v *)
 | ASbso (b o v : sym).               (* sbso b, o, v *)
 Inductive aline := ALabel (l : label) | AInstr (i : ains).
 
 (* ---------- source fragment ---------- *)
-Inductive iopd := OLit (z : Z) | OVar (i : nat).       (* int literal | i-th int local *)
+(* int literal | i-th int local | binary arithmetic *)
+Inductive iopd := OLit (z : Z) | OVar (i : nat) | OArith (op : src_arith) (x y : iopd).
 Inductive bexpr :=
 | BLit (b : bool)
 | BVar (j : nat)                                       (* j-th bool local *)
@@ -73,8 +83,10 @@ Inductive bexpr :=
 | BOr (e1 e2 : bexpr).
 
 (* self.local_vars restricted to what the fragment needs: the (positive) frame offset of each
-   local; the accessor is Indirect / IndirectByte (STATE, [fp], -offset) *)
-Record env := mkenv { int_off : nat -> Z; bool_off : nat -> Z }.
+   local; the accessor is Indirect / IndirectByte (STATE, [fp], -offset).  wsize = self.word_size;
+   stack_top = self.stack.offset at the point where the expression is lowered *)
+Record env := mkenv { int_off : nat -> Z; bool_off : nat -> Z; wsize : Z; stack_top : Z }.
+Definition with_top (E : env) (t : Z) : env := mkenv (int_off E) (bool_off E) (wsize E) t.
 
 (* ---------- goto / is_goto ---------- *)
 Definition goto (l : label) : list aline := [AInstr (AJump (SLab l)); AInstr AHaltI].
@@ -96,14 +108,61 @@ Definition compare_instr (op : src_cmp) : cond :=
 (* halt_inversion[instr] *)
 Definition invert_instr (c : cond) : cond := match invert c with Some c' => c' | None => c end.
 
-(* ---------- operands ---------- *)
-(* what `get_expr_value(r, o)` / `pop_value(r, bubble)` emit and return for a safe int operand:
-   IntValue -> no code, the literal; local -> `lwso [r], [fp], -off`, State(r) *)
-Definition fetch (E : env) (r : reg) (o : iopd) : list aline * sym :=
-  match o with
-  | OLit z => ([], SLit z)
-  | OVar i => ([AInstr (ALwso r (SReg RFp) (SLit (- int_off E i)))], SReg r)
+(* arith_map[type(expr)] *)
+Definition src_arith_eqb (a b : src_arith) : bool :=
+  match a, b with
+  | SAdd, SAdd | SSub, SSub | SMul, SMul | SDiv, SDiv | SMod, SMod => true
+  | _, _ => false
   end.
+Definition arith_instr (op : src_arith) : aop :=
+  match find (fun e => src_arith_eqb (fst e) op) arith_map with Some e => snd e | None => Aadd end.
+
+(* ---------- operands ---------- *)
+(* is_safe: PrimitiveValue or VariableLookup *)
+Definition is_safe (o : iopd) : bool := match o with OArith _ _ _ => false | _ => true end.
+
+(* the ValueBubble eval_expr returns, as far as F_model needs it *)
+Inductive bubble :=
+| BuImm (z : Z)          (* vacuous, IntLiteral *)
+| BuLocal (off : Z)      (* vacuous, Indirect(STATE, [fp], -off): a local, never volatile *)
+| BuReg (r : reg)        (* vacuous, State(r): volatile *)
+| BuPushed (off : Z).    (* push_value: a reserved word at frame offset off *)
+(* pop_value(r, bubble): release the bubble (no code: no arrays here), then bubble.value.get(r) *)
+Definition pop_value (r : reg) (b : bubble) : list aline * sym :=
+  match b with
+  | BuImm z => ([], SLit z)
+  | BuLocal off | BuPushed off => ([AInstr (ALwso r (SReg RFp) (SLit (- off)))], SReg r)
+  | BuReg r' => ([], SReg r')
+  end.
+(* self.stack.offset while the bubble is live *)
+Definition top_after (top : Z) (b : bubble) : Z := match b with BuPushed off => off | _ => top end.
+
+(* eval_expr(r_out, o, keep) for int operands; top = self.stack.offset on entry *)
+Fixpoint eval_opd (E : env) (top : Z) (r_out : reg) (o : iopd) (keep : bool) : list aline * bubble :=
+  match o with
+  | OLit z => ([], BuImm z)
+  | OVar i => ([], BuLocal (int_off E i))
+  | OArith op x y =>
+      let (c1, lbub) := eval_opd E top R0 x (negb (is_safe y)) in
+      let (c2, rbub) := eval_opd E (top_after top lbub) R1 y false in      (* get_expr_value(r1, y) *)
+      let (c2', right) := pop_value R1 rbub in
+      let (c3, left) := pop_value R0 lbub in
+      let code := c1 ++ c2 ++ c2' ++ c3 ++ [AInstr (AArith (arith_instr op) r_out left right)] in
+      if keep
+      then (code ++ [AInstr (ASwso (SReg RFp) (SLit (- (top + wsize E))) (SReg r_out))],
+            BuPushed (top + wsize E))                                        (* push_value *)
+      else (code, BuReg r_out)
+  end.
+(* the three lines of the compare case:
+     left_bubble = eval_expr(r0, left, keep = not is_safe(right))
+     right = get_expr_value(r1, right);  left = pop_value(r0, left_bubble) *)
+Definition compare_operands (E : env) (a b : iopd) : list aline * sym * sym :=
+  let top := stack_top E in
+  let (c1, lbub) := eval_opd E top R0 a (negb (is_safe b)) in
+  let (c2, rbub) := eval_opd E (top_after top lbub) R1 b false in
+  let (c2', right) := pop_value R1 rbub in
+  let (c3, left) := pop_value R0 lbub in
+  (c1 ++ c2 ++ c2' ++ c3, left, right).
 
 (* ---------- bool_expr_branch ---------- *)
 Fixpoint lower_branch (E : env) (e : bexpr) (if_true if_false : list aline) (st : lstate)
@@ -115,15 +174,12 @@ Fixpoint lower_branch (E : env) (e : bexpr) (if_true if_false : list aline) (st 
       let (compare_is_true, st1) := add_label LCompareIsTrue st in
       let (compare_end, st2) := add_label LCompareEnd st1 in
       let instr := compare_instr op in
-      (* left_bubble = eval_expr(r0, left, keep = not is_safe(right) = False): no code;
-         right = get_expr_value(r1, right);  left = pop_value(r0, left_bubble) *)
-      let (cr, right) := fetch E R1 b in
-      let (cl, left) := fetch E R0 a in
-      (cr ++ cl
-         ++ [AInstr (AJump (SLab compare_is_true)); AInstr (AHc instr left right)]
+      let '(co, lhs, rhs) := compare_operands E a b in
+      (co
+         ++ [AInstr (AJump (SLab compare_is_true)); AInstr (AHc instr lhs rhs)]
          ++ if_false
          ++ (if false_end_goto then [] else goto compare_end)
-         ++ [ALabel compare_is_true; AInstr (AHc (invert_instr instr) left right)]
+         ++ [ALabel compare_is_true; AInstr (AHc (invert_instr instr) lhs rhs)]
          ++ if_true
          ++ (if false_end_goto then [] else [ALabel compare_end]),
        st2)
@@ -172,9 +228,10 @@ Definition if_block (E : env) (e : bexpr) (st : lstate) : list aline * label * l
    offset `off`, `set` is `sbso [fp], -off, v` *)
 Definition value_lowering (E : env) (e : bexpr) (r_out : reg) (st : lstate) : list aline * lstate :=
   lower_branch E e [AInstr (AMov r_out (SLit 1))] [AInstr (AMov r_out (SLit 0))] st.
-Definition value_lowering_keep (E : env) (e : bexpr) (off : Z) (st : lstate) : list aline * lstate :=
-  lower_branch E e [AInstr (ASbso (SReg RFp) (SLit (- off)) (SLit 1))]
-                   [AInstr (ASbso (SReg RFp) (SLit (- off)) (SLit 0))] st.
+Definition value_lowering_keep (E : env) (e : bexpr) (st : lstate) : list aline * lstate :=
+  let off := stack_top E + 1 in                       (* bubble = reserve_type(bool): reserve_byte *)
+  lower_branch (with_top E off) e [AInstr (ASbso (SReg RFp) (SLit (- off)) (SLit 1))]
+                                  [AInstr (ASbso (SReg RFp) (SLit (- off)) (SLit 0))] st.
 
 (* ---------- printing: one line exactly as asm.lines renders it (indentation and Metadata
    comment lines are not instructions and are stripped by the correspondence) ---------- *)
@@ -202,6 +259,11 @@ Definition cond_str (c : cond) : string :=
   | Ceq => "heq" | Cne => "hne" | Clt => "hlt" | Cltu => "hltu" | Cgt => "hgt" | Cgtu => "hgtu"
   | Cle => "hle" | Cleu => "hleu" | Cge => "hge" | Cgeu => "hgeu"
   end.
+Definition aop_str (o : aop) : string :=
+  match o with
+  | Aadd => "add" | Asub => "sub" | Amul => "mul" | Adiv => "div" | Amod => "mod"
+  | Aand => "and" | Aor => "or" | Axor => "xor" | Aasl => "asl" | Aasr => "asr"
+  end.
 Definition print_ains (i : ains) : string :=
   match i with
   | AJump t => "j " ++ sym_str t
@@ -209,6 +271,7 @@ Definition print_ains (i : ains) : string :=
   | AHc c a b => cond_str c ++ " " ++ sym_str a ++ ", " ++ sym_str b
   | ALwso d b o => "lwso [" ++ reg_str d ++ "], " ++ sym_str b ++ ", " ++ sym_str o
   | ALbso d b o => "lbso [" ++ reg_str d ++ "], " ++ sym_str b ++ ", " ++ sym_str o
+  | AArith o d a b => aop_str o ++ " [" ++ reg_str d ++ "], " ++ sym_str a ++ ", " ++ sym_str b
   | AMov d v => "mov [" ++ reg_str d ++ "], " ++ sym_str v
   | ASwso b o v => "swso " ++ sym_str b ++ ", " ++ sym_str o ++ ", " ++ sym_str v
   | ASbso b o v => "sbso " ++ sym_str b ++ ", " ++ sym_str o ++ ", " ++ sym_str v
@@ -225,7 +288,8 @@ Close Scope string_scope.
    gen_func: the return address occupies the first word; parameters follow in order; byte-sized
    locals are reserved one byte each after them ---------- *)
 Definition is_you_env (w : Z) (nparams : nat) : env :=
-  mkenv (fun i => (Z.of_nat i + 2) * w) (fun j => (Z.of_nat nparams + 1) * w + Z.of_nat j + 1).
+  mkenv (fun i => (Z.of_nat i + 2) * w) (fun j => (Z.of_nat nparams + 1) * w + Z.of_nat j + 1)
+        w ((Z.of_nat nparams + 1) * w).
 
 (* ---------- two-pass label resolution at a base address ---------- *)
 Record regmap := mkregs { a_ap : Z; a_fp : Z; a_r0 : Z; a_r1 : Z; a_r2 : Z }.
@@ -244,6 +308,7 @@ Definition res_ins (R : regmap) (lab : label -> Z) (i : ains) : instr :=
   | AHc c a b => IHc c (rs a) (rs b)
   | ALwso d b o => ILoadO WWord SState (St (regaddr R d)) (rs b) (rs o)
   | ALbso d b o => ILoadO WByte SState (St (regaddr R d)) (rs b) (rs o)
+  | AArith o d a b => IArith o (St (regaddr R d)) (rs a) (rs b)
   | AMov d v => IMov (St (regaddr R d)) (rs v)
   | ASwso b o v => IStoreO WWord (rs b) (rs o) (rs v)
   | ASbso b o v => IStoreO WByte (rs b) (rs o) (rs v)
